@@ -111,6 +111,7 @@ func c05HelperByPath(path string) *c05Helper {
 const c05Common = `package p
 
 type L struct{}
+type LL L
 type AL = L
 type AI = int
 type I interface{ Mown() }
@@ -220,11 +221,15 @@ type c05Ty struct {
 
 var c05Tau = func() []c05Ty {
 	exprs := []string{
-		"int", "string", "L", "a.N", "*L", "**L", "[]int", "[]L", "[]*L", "[2]int", "[3]int",
-		"map[string]L", "chan int", "<-chan int", "chan<- int",
-		"func(int) string", "func(x int) string", "...int", "...L",
-		"AL", "AI", "any", "interface{}", "struct{}", "error", "*a.N", "al.N",
-		"byte", "uint8", "[]AL", "*AL", "...AL", "[]any", "func(AI) string",
+		"int", "string", "L", "LL", "a.N", "al.N", "*L", "**L", "***L", "*int", "**int", "*a.N", "*al.N",
+		"[]int", "[]L", "[]*L", "[]**L", "*[]L", "[][]int", "[2]int", "[3]int", "[2]L",
+		"map[string]L", "map[string]*L", "map[L]int", "chan int", "<-chan int", "chan<- int", "chan L",
+		"func(int) string", "func(x int) string", "func(...int)", "func([]int)", "func() (int, string)", "func() (n int, s string)", "func(L) *L",
+		"...int", "...L", "...*L", "...interface{}",
+		"AL", "AI", "*AL", "*AI", "[]AL", "map[AL]int", "chan AL", "func(AI) string", "func(AL) *AL", "...AL", "...any",
+		"any", "interface{}", "[]any", "[]interface{}", "interface{ M() }", "error",
+		"struct{}", "struct{ X int }", "struct{ Y int }", "struct{ X AI }",
+		"byte", "uint8", "[]byte", "[]uint8", "rune", "int32",
 	}
 	var out []c05Ty
 	for _, e := range exprs {
@@ -259,7 +264,7 @@ func c05HasWord(s, w string) bool {
 func c05PairCause(ti, tm string) string {
 	var tags []string
 	alias := false
-	for _, w := range []string{"AL", "AI", "any", "byte"} {
+	for _, w := range []string{"AL", "AI", "any", "byte", "rune"} {
 		if c05HasWord(ti, w) || c05HasWord(tm, w) {
 			alias = true
 		}
@@ -267,7 +272,8 @@ func c05PairCause(ti, tm string) string {
 	if alias {
 		tags = append(tags, "alias")
 	}
-	if strings.Contains(ti, "func(x ") || strings.Contains(tm, "func(x ") {
+	named := func(t string) bool { return strings.Contains(t, "func(x ") || strings.Contains(t, "(n int") }
+	if named(ti) || named(tm) {
 		tags = append(tags, "funcname")
 	}
 	si, sm := strings.TrimPrefix(ti, "..."), strings.TrimPrefix(tm, "...")
@@ -675,9 +681,9 @@ var c05ImpCfgs = []c05ImpCfg{
 	{Name: "plain", Target: c05Imp{"", "ex.com/m/a"}, Method: "Ma",
 		Quals: []c05Qual{{"declared-name", "a", "-"}, {"none", "", "-"}, {"own-package-name", "p", "ownname"}, {"unknown", "zz", "-"}}},
 	{Name: "alias", Target: c05Imp{"al", "ex.com/m/b"}, Method: "Mb",
-		Quals: []c05Qual{{"alias", "al", "-"}, {"original-name-of-aliased", "b", "unbound-declname+unbound-pathelt"}, {"own-package-name", "p", "ownname"}, {"unknown", "zz", "-"}}},
+		Quals: []c05Qual{{"alias", "al", "-"}, {"own-package-name", "p", "ownname"}, {"unknown", "zz", "-"}}},
 	{Name: "blank", Target: c05Imp{"_", "ex.com/m/us"}, Method: "Mus",
-		Quals: []c05Qual{{"declared-name-of-blank", "us", "-"}, {"underscore", "_", "underscore-qualifier"}, {"unknown", "zz", "-"}}},
+		Quals: []c05Qual{{"declared-name-of-blank", "us", "-"}, {"unknown", "zz", "-"}}},
 	{Name: "dot", Target: c05Imp{".", "ex.com/m/dot"}, Method: "Mdot",
 		Quals:  []c05Qual{{"declared-name-of-dot", "dot", "-"}, {"none", "", "-"}},
 		Inames: []c05Iname{{"exists", "DotI"}, {"misspelt", "DotImiss"}, {"non-interface-type", "DotS"}}},
@@ -688,9 +694,9 @@ var c05ImpCfgs = []c05ImpCfg{
 	{Name: "name-differs-lastel", Target: c05Imp{"", "ex.com/m/lastel"}, Method: "Mdecl",
 		Quals: []c05Qual{{"declared-name", "decl", "name-differs"}, {"last-path-element", "lastel", "unbound-pathelt"}}},
 	{Name: "alias-of-name-differs", Target: c05Imp{"y", "ex.com/m/yaml.v3"}, Method: "Myaml",
-		Quals: []c05Qual{{"alias", "y", "-"}, {"original-name-of-aliased", "yaml", "unbound-declname"}}},
+		Quals: []c05Qual{{"alias", "y", "-"}}},
 	{Name: "alias-of-lastel", Target: c05Imp{"le", "ex.com/m/lastel"}, Method: "Mdecl",
-		Quals: []c05Qual{{"alias", "le", "-"}, {"original-name-of-aliased", "decl", "unbound-declname"}, {"last-path-element", "lastel", "unbound-pathelt"}}},
+		Quals: []c05Qual{{"alias", "le", "-"}}},
 	{Name: "imported-pkg-named-like-current", Target: c05Imp{"", "ex.com/m/q/p"}, Method: "Mp",
 		Quals: []c05Qual{{"declared-name", "p", "name-like-current"}, {"none", "", "-"}}},
 	{Name: "swapped-aliases", Target: c05Imp{"a", "ex.com/m/b"}, Second: &c05Imp{"b", "ex.com/m/a"}, Method: "Mb",
